@@ -6,38 +6,41 @@
 (* prediction under the physically irrelevant choices) and emits the        *)
 (* scenarios for replay.                                                    *)
 (***************************************************************************)
-EXTENDS PPRefHyd, TLC, Json
+EXTENDS PPRefTherm, TLC, Json
 
-CONSTANTS MaxNodes, MaxChords, Demands, NVals, ZetaVals, SecVals, HVals, ChordFlows, Kinds, EmitOn, MaxSteps
+CONSTANTS ThermalOn, MaxNodes, MaxChords, Demands, NVals, ZetaVals, SecVals, HVals, ChordFlows, Kinds, EmitOn, MaxSteps,
+          FdVals, TeVals, DtVals      \* thermal attributes: decay-factor code, ambient index, heat-exchanger temperature drop
 
 VARIABLES s, steps
 vars == <<s, steps>>
 
-Root(h) == [par |-> 0, kind |-> "", rev |-> FALSE, N |-> 0, zeta |-> 0, sec |-> 1, h |-> h, d |-> 0]
+Root(h) == [par |-> 0, kind |-> "", rev |-> FALSE, N |-> 0, zeta |-> 0, sec |-> 1, h |-> h, d |-> 0, fd |-> 1, te |-> 1, dT |-> 0]
 Tables == [hm |-> [i \in {1, 2, 3} |-> IF i = 1 THEN 0 ELSE IF i = 2 THEN 10 ELSE -20],
            pamb |-> [i \in {1, 2, 3} |-> IF i = 1 THEN 1013250 ELSE IF i = 2 THEN 1012049 ELSE 1015655]]
 
 Init == \E h \in HVals, pp \in {<<10000000>>, <<9000000, 11000000>>} :
           /\ s = [p0 |-> (IF Len(pp) = 1 THEN pp[1] ELSE (pp[1] + pp[2]) \div 2), p0s |-> pp,
-                  nodes |-> <<Root(h)>>, chords |-> <<>>, hm |-> Tables.hm, pamb |-> Tables.pamb]
+                  nodes |-> <<Root(h)>>, chords |-> <<>>, hm |-> Tables.hm, pamb |-> Tables.pamb, t0 |-> 360]
           /\ steps = 0
 
 AddNode ==
     /\ Len(s.nodes) < MaxNodes
     /\ \E par \in Nodes(s), kind \in Kinds, rev \in BOOLEAN, N \in NVals, z \in ZetaVals, sec \in SecVals,
-          h \in HVals, d \in Demands :
-        /\ (kind # "pipe" => (N = 0 /\ sec = 1 /\ z > 0))
+          h \in HVals, d \in Demands, fd \in FdVals, te \in TeVals, dT \in DtVals :
+        /\ (kind # "pipe" => (N = 0 /\ sec = 1 /\ z > 0 /\ fd = 1 /\ te = 1))
         /\ (kind = "pipe" => N > 0)
+        /\ (kind # "heat_exchanger" => dT = 0)
         /\ s' = [s EXCEPT !.nodes = Append(@, [par |-> par, kind |-> kind, rev |-> rev, N |-> N, zeta |-> z,
-                                                sec |-> sec, h |-> h, d |-> d])]
+                                                sec |-> sec, h |-> h, d |-> d, fd |-> fd, te |-> te, dT |-> dT])]
     /\ steps' = steps + 1
 
 AddChord ==
     /\ Len(s.chords) < MaxChords
-    /\ \E a \in Nodes(s), b \in Nodes(s), N \in NVals \ {0}, mc \in ChordFlows, sec \in SecVals, rev \in BOOLEAN :
+    /\ \E a \in Nodes(s), b \in Nodes(s), N \in NVals \ {0}, mc \in ChordFlows, sec \in SecVals, rev \in BOOLEAN,
+          fd \in FdVals, te \in TeVals :
         /\ a # b
         /\ s' = [s EXCEPT !.chords = Append(@, [a |-> a, b |-> b, kind |-> "pipe", N |-> N, mc |-> mc, sec |-> sec,
-                                                 rev |-> rev, zeta |-> <<0, 1>>])]
+                                                 rev |-> rev, zeta |-> <<0, 1>>, fd |-> fd, te |-> te])]
     /\ steps' = steps + 1
 
 
@@ -49,6 +52,7 @@ Admissible(sc) ==
     /\ NoZeroFlow(sc) /\ AllPositive(sc)
     /\ \A k \in Nodes(sc) \ {1} : FlowOKForLambda(Flow(sc, k))
     /\ \A i \in DOMAIN sc.chords : FlowOKForLambda(sc.chords[i].mc)
+    /\ (ThermalOn => (ThermallyDetermined(sc) /\ \A k \in Nodes(sc) : T(sc, k)[2] <= 4096))
 
 WithZetas(sc) == [sc EXCEPT !.chords = [i \in DOMAIN sc.chords |-> [sc.chords[i] EXCEPT !.zeta = ChordZeta(sc, i)]]]
 
@@ -68,6 +72,11 @@ Neutral(sc) == [sc EXCEPT !.nodes = [k \in DOMAIN sc.nodes |-> [sc.nodes[k] EXCE
                           !.chords = [i \in DOMAIN sc.chords |-> [sc.chords[i] EXCEPT !.rev = FALSE, !.sec = 1]]]
 InvOrientationFree == \A k \in Nodes(s) : P(s, k) = P(Neutral(s), k) /\ Flow(s, k) = Flow(Neutral(s), k)
 (* raising the fixed pressure by a constant raises every pressure by that constant (liquids) *)
+(* energy is conserved by the reference: what the feeder puts in leaves through demands, ambient losses and exchangers; *)
+(* checked in the simplest form: without decay and exchangers every temperature equals the feed temperature            *)
+InvIsothermal == (ThermalOn /\ Len(s.nodes) >= 2 /\ ThermallyDetermined(s)
+                  /\ (\A k \in Nodes(s) : s.nodes[k].fd = 1 /\ s.nodes[k].dT = 0) /\ (\A i \in DOMAIN s.chords : s.chords[i].fd = 1))
+                 => \A k \in Nodes(s) : REq(T(s, k), R(s.t0))
 InvShift == LET t == [s EXCEPT !.p0 = @ + 500000] IN \A k \in Nodes(s) : P(t, k) = P(s, k) + 500000
 
 Emit == (EmitOn /\ Admissible(s)) =>
